@@ -1792,7 +1792,12 @@ class Walker:
             m = self.prog.find_method(self.clsbind or cur_cls, chain[1], after=cur_cls)
             if m is not None and m[0] != "repo":
                 return [(st, "val", G("ext:" + m[1]))]
+        deep = False
         if chain and chain[0] != "super()" and self._is_module_level(chain[0], st):
+            r0, rest0 = self.prog.resolve_dotted(self.mod, chain)
+            # Class.MEMBER.attr / CONST.field.attr: the last step is an attribute of a value
+            deep = r0[0] in ("class", "const") and len(rest0) >= 2
+        if chain and chain[0] != "super()" and self._is_module_level(chain[0], st) and not deep:
             r, rest = self.prog.resolve_dotted(self.mod, chain)
             if r[0] == "unknown":
                 raise AnalysisError("unresolved name %s at %s" % (".".join(chain), self.site(e)))
@@ -1811,6 +1816,13 @@ class Walker:
             if k != "val":
                 outs.append((s, k, b))
                 continue
+            if isinstance(b, tuple) and len(b) == 3 and b[0] in ("obj", "nt", "enum") and not (b[0] == "nt" and b[1] in self.prog.classes and e.attr in [n_ for n_, _d in self.prog.classes[b[1]].nt_fields()]):
+                m_p0 = self.prog.find_method(b[1], e.attr)
+                if m_p0 is not None and m_p0[0] == "repo" and any(ast.unparse(d) in ("property", "functools.cached_property", "cached_property") for d in m_p0[1].node.decorator_list):
+                    from .calls import apply_repo
+
+                    outs.extend(apply_repo(self, e, m_p0[1], None, (b,), (), s))
+                    continue
             if b[0] == "global" and b[1].startswith("ext:"):
                 outs.append((s, "val", G(b[1] + "." + e.attr)))
                 continue
@@ -1832,7 +1844,13 @@ class Walker:
                     v = self.eng.static_term(ci_e.mod, ci_e.enum_members()[b[2]])
                     outs.append((s, "val", v if v is not None else ("attr", b, "value")))
                     continue
-                if ci_e is not None and self.prog.find_method(b[1], e.attr) is not None:
+                m_e = self.prog.find_method(b[1], e.attr) if ci_e is not None else None
+                if m_e is not None and m_e[0] == "repo" and any(ast.unparse(d) in ("property", "functools.cached_property", "cached_property") for d in m_e[1].node.decorator_list):
+                    from .calls import apply_repo
+
+                    outs.extend(apply_repo(self, e, m_e[1], None, (b,), (), s))
+                    continue
+                if m_e is not None:
                     outs.append((s, "val", ("attr", b, e.attr)))
                     continue
             nt = b
